@@ -119,6 +119,61 @@ def oracle_pair(res, case, t1, t2, s1, s2, kw1, kw2, out):
             res.fail('a path of the common suffix does not extend exactly one path of the first operand', case)
 
 
+def oracle_nary(res, rng, limit):
+    """tree_broadcast_map over 3-4 trees equals tree_map over the trees each broadcast to the common
+    suffix of all (computed independently with broadcast_to_common_suffix + tree_broadcast_prefix)"""
+    cfg = gen.gen_cfg(rng, limit)
+    cfg = (cfg[0] if rng.random() < 0.5 else 1, cfg[1], 0, cfg[3], cfg[4], cfg[5])
+    g = gen.TreeGen(rng, world.STRUCTSEQ_ARITY, max_nodes=14, max_depth=4, max_arity=3, none_p=0.25)
+    base = g.tree()
+    n = rng.choice([3, 3, 4])
+    trees = []
+    for i in range(n):
+        t = gen.make_prefix(rng, gen.vary_dicts(rng, base) if rng.random() < 0.4 else base, rng.choice([0.2, 0.4, 0.7]))
+        if rng.random() < 0.15:
+            t = gen.local_edit(rng, t, world.STRUCTSEQ_ARITY)
+        trees.append(t)
+    case = (5, cfg, trees[0], trees[1], *trees[2:])
+    with World(cfg) as w:
+        kw = w.kw()
+        leaves = {}
+        ts = [realize(t, rng, leaves) for t in trees]
+        specs = []
+        for t in ts:
+            r = attempt(lambda: optree.tree_structure(t, **kw))
+            if r[0] != 0:
+                return
+            specs.append(r[1])
+        res.evaluations += 1
+        common = specs[0]
+        ok = True
+        for s_ in specs[1:]:
+            r = attempt(lambda: common.broadcast_to_common_suffix(s_))
+            if r[0] != 0:
+                ok = False
+                break
+            common = r[1]
+        rec = []
+        m = attempt(lambda: optree.tree_broadcast_map(lambda *xs: (rec.append(xs), xs[0])[1], *ts, **kw))
+        if not ok:
+            if m[0] == 0:
+                res.fail('tree_broadcast_map succeeded although the trees have no common suffix', case)
+            return
+        ctree = common.unflatten([world.Opaque(90000 + i) for i in range(common.num_leaves)])
+        bts = []
+        for t in ts:
+            r = attempt(lambda: optree.tree_broadcast_prefix(t, ctree, **kw))
+            if r[0] != 0:
+                return
+            bts.append(r[1])
+        rec2 = []
+        m2 = attempt(lambda: optree.tree_map(lambda *xs: (rec2.append(xs), xs[0])[1], *bts, **kw))
+        if m[0] != m2[0]:
+            res.fail('tree_broadcast_map over n trees raises although every tree broadcasts to the common suffix', case, m)
+        elif len(rec) != len(rec2) or any(any(p is not q for p, q in zip(u, v)) for u, v in zip(rec, rec2)):
+            res.fail('tree_broadcast_map over n trees differs from tree_map over the trees broadcast to the common suffix of all', case)
+
+
 def run(res, tier, seed):
     rng = random.Random(seed * 1000003 + 9)
     limit = optree.MAX_RECURSION_DEPTH
@@ -137,6 +192,8 @@ def run(res, tier, seed):
         c, o = impl_broadcast(cfg, o1, o2, random.Random(rng.getrandbits(48)), res)
         cmds.append(c)
         obs.append(o)
+    for i in range(n // 2):
+        oracle_nary(res, rng, limit)
     mod = runner.run_model(cmds)
     for c, a, b in zip(cmds, obs, mod):
         res.compare(c, a, b, 'cmd_broadcast')
